@@ -51,6 +51,46 @@ ALT_ERRNO = {'os.open': errno.EEXIST, 'os.link': errno.EMLINK, 'os.rename': errn
 LISTED_STEPS = {'os.open', 'os.fdopen', 'os.chmod', 'os.fchmod', 'file.write', 'file.writelines', 'file.flush', 'os.fsync',
                 'os.fdatasync', 'file.close', 'os.rename', 'os.replace', 'os.link', 'open'}
 UNLINK_CALLS = {'os.unlink', 'os.remove'}
+PUBLISH_CALLS = {'os.rename', 'os.replace', 'os.link'}
+PROBE_CALLS = {'os.stat', 'os.lstat'}
+# round 5: errno values on which file-system code is known to BRANCH ("no hard links here", "other device", "try again",
+# "read-only", "exists", "gone" ...) - each of them is a behaviour class of its own at every call; the first ones are the
+# "this file system cannot do it: try another way" class.  Names missing on the platform are skipped, equal values merged.
+ERRNO_CLASS_NAMES = ['EPERM', 'ENOTSUP', 'EOPNOTSUPP', 'ENOSYS', 'EXDEV', 'EMLINK', 'EACCES', 'EROFS', 'EEXIST', 'ENOENT',
+                     'EINTR', 'EAGAIN', 'EWOULDBLOCK', 'EBUSY', 'ENOSPC', 'EDQUOT', 'EIO', 'ENOTDIR', 'EISDIR', 'ELOOP',
+                     'ENAMETOOLONG', 'EINVAL', 'EBADF', 'ETXTBSY', 'ENOTEMPTY', 'ENOMEM', 'EMFILE', 'ENFILE', 'EFBIG',
+                     'ESTALE', 'ENOLCK', 'ETIMEDOUT', 'ENODEV', 'ENOTTY', 'ESPIPE', 'EDEADLK', 'ECANCELED', 'ENXIO']
+TRY_ANOTHER_WAY = ['EPERM', 'ENOTSUP', 'EOPNOTSUPP', 'ENOSYS', 'EXDEV', 'EMLINK', 'EACCES', 'EROFS']
+
+
+def errno_values(names):
+    out = []
+    for n in names:
+        v = getattr(errno, n, None)
+        if isinstance(v, int) and v not in out:
+            out.append(v)
+    return out
+
+
+_SRC_ERRNOS = []
+
+
+def source_errnos():
+    """errno names the CURRENT boltons/fileutils.py mentions anywhere - as `errno.X` or as a string ('EPERM' in a table
+    looked up with getattr): the values its code can tell apart come first in every errno family"""
+    if not _SRC_ERRNOS:
+        names = []
+        try:
+            import re
+            import boltons.fileutils as fu
+            with open(fu.__file__.replace('.pyc', '.py'), encoding='utf-8') as fh:
+                for n in re.findall(r'\bE[A-Z0-9]{2,14}\b', fh.read()):
+                    if isinstance(getattr(errno, n, None), int) and n not in names:
+                        names.append(n)
+        except Exception:
+            pass
+        _SRC_ERRNOS.append(names)
+    return _SRC_ERRNOS[0]
 
 # A plan action >= 1000 makes the call raise an exception that is NOT an errno-carrying OSError.  The Lean
 # model treats an error as an opaque number (`Errno = Nat`), exactly as the code must (`except Exception`):
@@ -504,15 +544,91 @@ class C05(Property):
         memo[self.key(case)] = obs
         return obs['first'].get('log', [])
 
+    # ------------------------------------------------------------------ round 5: errno values as behaviour classes
+    def run_sig(self, case):
+        """what a run looks like from outside: the calls made, whether the caller saw an exception, whether it published"""
+        obs = self.run_case(case)
+        memo = self.__dict__.setdefault('_memo', {})
+        if len(memo) > 64:
+            memo.clear()
+        memo[self.key(case)] = obs
+        o = obs['first']
+        return o.get('log', []), (o['out'] == 'ok', bool(o.get('pub')))
+
+    def errno_classes(self, base, sites=None, errnos=None, always=PUBLISH_CALLS, second=True):
+        """errno values are BEHAVIOUR CLASSES: code branches on them ("no hard links here: fall back on ...", "other device:
+        copy instead", "interrupted: again").  For every call k of the fault-free run (restricted to the call names `sites`
+        when given) and every errno e of the family: the single fault [k, e]; and when the run that follows differs from the
+        run after the site's ordinary errno (other calls, other outcome: the code took ANOTHER WAY) - or always, at the
+        publishing calls - the interleavings of that other way: the destination created by another process at EVERY later call
+        boundary (a check-then-act window is one call wide), at the boundary just before k, and a second fault at every later call."""
+        c0 = dict(base, plan=[])
+        calls = self.learn_calls(c0)
+        fam = errnos if errnos is not None else errno_values(source_errnos() + ERRNO_CLASS_NAMES)
+        for k, name in enumerate(calls):
+            if sites is not None and name not in sites:
+                continue
+            e0 = SITE_ERRNO.get(name, errno.EIO)
+            ref_calls, ref_out = self.run_sig(dict(base, plan=[[k, e0]]))
+            for e in fam:
+                if e == errno.ENOENT and name in PROBE_CALLS:
+                    continue        # a probe answering "no such file" is not a failure (and a lie when the file is there)
+                c1 = dict(base, plan=[[k, e]])
+                calls_e, out_e = self.run_sig(c1)
+                other_way = (calls_e[k + 1:] != ref_calls[k + 1:]) or out_e != ref_out
+                if not (other_way or name in always):
+                    yield c1
+                    continue
+                for j in range(k + 1, len(calls_e)):
+                    yield dict(base, plan=[[k, e], [j, 'A']])
+                yield c1
+                if k:
+                    yield dict(base, plan=[[k - 1, 'A'], [k, e]])
+                if second and other_way:
+                    for j in range(k + 1, len(calls_e)):
+                        yield dict(base, plan=[[k, e], [j, SITE_ERRNO.get(calls_e[j], errno.EIO)]])
+                        yield dict(base, plan=[[k, e], [j, e]])
+
+    def errno_family(self, full, stage):
+        mk = self.mk
+        taw = errno_values(source_errnos() + TRY_ANOTHER_WAY)
+        if stage == 0:
+            # the publishing call (link / rename / replace) failing with each "cannot do it here" errno, the destination
+            # appearing at every call boundary after it: overwrite=False first (no-clobber must survive every fallback)
+            for ow, dm, owp, pm in ((0, None, 0, None), (1, 0o644, 0, None), (0, None, 1, 0o640), (1, None, 0, None)):
+                for c in self.errno_classes(mk(ow=ow, dm=dm, owp=owp, pm=pm), sites=PUBLISH_CALLS, errnos=taw):
+                    yield c
+            return
+        # every call x the whole family
+        allv = sorted(errno.errorcode) if full else None
+        for ow, dm, perms, txt in ((0, None, None, 0), (1, 0o600, None, 0), (1, None, 0o640, 1), (0, None, 0o600, 1)):
+            for c in self.errno_classes(mk(ow=ow, dm=dm, perms=perms, txt=txt), errnos=allv):
+                yield c
+        # ... of a save whose block raised (only the cleanup may differ) and of a save that leaves its part file on purpose
+        for c in self.errno_classes(mk(ow=0, dm=None, raises=1), errnos=taw, always=()):
+            yield c
+        for c in self.errno_classes(mk(ow=0, dm=None, rm=0), errnos=taw):
+            yield c
+        # every errno the platform knows at the publishing call
+        for ow, dm in ((0, None), (1, 0o644)):
+            for c in self.errno_classes(mk(ow=ow, dm=dm, umask=0o077), sites=PUBLISH_CALLS, errnos=sorted(errno.errorcode)):
+                yield c
+
     def small_families(self, full):
         """small, diverse, adversarial: generated FIRST so that a slow machine (budget cut) never loses them"""
         mk, script = self.mk, self.script
+        # 0. (round 5) errno classes at the publishing call x interference at every later call boundary
+        for c in self.errno_family(full, 0):
+            yield c
         # 1. an explicit file_perms of 0 (a fully locked-down file) is a request like any other, not "none given"
         for ow, dm, um in itertools.product((1, 0), (None, 0o644, 0o600), (0o022, 0)):
             for c in self.with_plans(mk(ow=ow, perms=0, umask=um, dm=dm), appear=False):
                 yield c
         # 10. HISTORIES: one long-lived AtomicSaver object, several saves, the world changes in between
         for c in self.history_family(full):
+            yield c
+        # 11. (round 5) every call x the errno family; where an errno makes the code take another way, its interleavings
+        for c in self.errno_family(full, 1):
             yield c
         # 2. what the with-block does besides writing (closes the file itself, writes after closing, flushes)
         #    x how it ends, with every single fault; then the ways a block can raise
@@ -621,6 +737,23 @@ class C05(Property):
             if ow:
                 yield dict(base, raises=1, hist=[stale, sv(2), sv(3, raises=1), ['Q'], sv(4)])
                 yield dict(base, hist=[stale, sv(2, plan=[[0, errno.EIO]]), ['Q'], stale, sv(3), ['Q'], sv(4)])
+        # g. (round 5) what an EARLIER use learned about the file system must not weaken a later one: a use whose publishing
+        #    call failed with a "cannot do it here" errno (on the same object, on a second object, on a fresh one), then
+        #    a save during which the destination appears at each call boundary / whose publishing call fails the ordinary way
+        taw = errno_values(source_errnos() + TRY_ANOTHER_WAY)
+        for ow, dm in ((0, None), (1, 0o644)):
+            base = mk(ow=ow, dm=dm, plan=[])
+            calls = self.learn_calls(base)
+            ks = [k for k, name in enumerate(calls) if name in PUBLISH_CALLS]
+            for k in ks[:1]:
+                for ei, e in enumerate(taw if full else taw[:5]):
+                    for who in (0, 'n', 1):
+                        if not full and who == 1 and ei > 1:
+                            continue
+                        first = dict(base, plan=[[k, e]], alt={})
+                        for j in (range(len(calls)) if (ow == 0 and (full or who == 0 or ei < 2)) else ()):
+                            yield dict(first, hist=[sv(2, who=who, plan=[[j, 'A']])])
+                        yield dict(first, hist=[sv(2, who=who), ['d'], sv(3, who=who, plan=[[k, SITE_ERRNO[calls[k]]]]), sv(4, who=who)])
         # e. every single fault position of the SECOND save of a history (and of the third)
         sel = [(mk(dm=0o644, plan=[]), moves[0]), (mk(dm=None, plan=[]), moves[4]), (mk(dm=0o600, perms=0o640, plan=[]), moves[2]),
                (mk(ow=0, dm=None, plan=[]), moves[2]), (mk(dm=0o644, txt=1, plan=[]), moves[3])]
@@ -1180,9 +1313,18 @@ class C05(Property):
         refused = (not case['ow']) and (init_dest is not None or bool(appeared_before))
         trigger = bool(case['raises']) or bool(listed_fault) or refused
         if trigger and completed:
-            return Failure('completed-despite-failure', 'the save was published although %s' % (
-                'the block raised' if case['raises'] else 'call %r failed' % (listed_fault[:1],) if listed_fault else
-                'overwrite=False and the destination existed'))
+            why = []
+            if case['raises']:
+                why.append('the block raised')
+            if refused:
+                why.append('overwrite=False and the destination existed' + (
+                    '' if init_dest is not None else ' (created by another process before call #%d, %s the publishing call #%d: '
+                    'its content is lost)' % (appeared_before[-1], 'which is' if appeared_before[-1] == pub_index else 'before', pub_index)))
+            if listed_fault:
+                why.append('call %r failed' % (listed_fault[:1],))
+            # another writer's file silently replaced: the worst outcome, told apart so that the shrinker keeps the interleaving
+            lost = refused and init_dest is None
+            return Failure('clobbered' if lost else 'completed-despite-failure', 'the save was published although ' + ' and '.join(why))
         if not completed:
             if o['out'] == 'ok':
                 return Failure('silent-failure', 'the save did not complete but no exception reached the caller')
